@@ -230,10 +230,10 @@ def rule_r5(ctx):
     # the scheduling happens on every call, before the accepting test
     acc = [x for x in g.nodes if x.kind == "test" and dotted(x.ast) == "self.accepting"]
     tn = [x for x in g.nodes if x.kind == "test" and "next_channel_cleanup" in norm(x.ast)]
-    if tn and all(g.dominates(tn[0], a) for a in acc) and not g.guards(tn[0]):
+    if tn and all(g.dominates(tn[0], a) for a in acc) and not g.guards(tn[0]) and g.path(g.entry, g.exit, avoid=tn, follow_exc=False) is None:
         ctx.r.ok(rid, "the schedule test runs on every readable() call", f.loc(tn[0].ast))
     else:
-        ctx.r.violation(rid, key_of(f, None, "schedule-conditional"), "the maintenance schedule is only evaluated under a condition", f.loc())
+        ctx.r.violation(rid, key_of(f, None, "schedule-conditional"), "the maintenance schedule is only evaluated under a condition (a path through readable() returns without testing next_channel_cleanup: while that condition lasts idle connections are never reaped)", f.loc())
 
 
 def rule_r6(ctx):
